@@ -278,6 +278,12 @@ def RExp.shared : RExp → Bool
   | _ => false
 
 def needW (l : LSt) (what : String) : LRes := if l.held = .w then .falls l else .bad (what ++ " outside the write lock")
+/-- Foreign code (the store, the codec functions, the compute function) may panic: it runs under the write lock **with
+the release deferred**, so that a panic unwinding through the method cannot leave the mutex locked. -/
+def needWD (l : LSt) (what : String) : LRes :=
+  if l.held ≠ .w then .bad (what ++ " outside the write lock")
+  else if !l.deferred then .bad (what ++ " without a deferred release of the lock (a panic in it would leave the mutex locked)")
+  else .falls l
 def needRW (l : LSt) (what : String) : LRes := if l.held ≠ .none then .falls l else .bad (what ++ " outside any lock")
 
 def lockWalk : Stmt → LSt → LRes
@@ -299,13 +305,13 @@ def lockWalk : Stmt → LSt → LRes
   | .sync .unlock, l => if l.held = .w && !l.deferred then .falls ⟨.none, false⟩ else .bad "Unlock without the write lock"
   | .sync .deferRUnlock, l => if l.held = .r && !l.deferred then .falls ⟨.r, true⟩ else .bad "defer RUnlock without the read lock"
   | .sync .deferUnlock, l => if l.held = .w && !l.deferred then .falls ⟨.w, true⟩ else .bad "defer Unlock without the write lock"
-  | .kvGet _ _, l => needW l "store read"        -- the slow paths and Compute read the store under the write lock
-  | .kvHas _ _, l => needW l "store read"
-  | .kvSet _ _, l => needW l "store write"
-  | .kvDel _, l => needW l "store write"
-  | .decode _ _ _, l => needW l "decode"
-  | .encode _ _ _, l => needW l "encode"
-  | .callFn _ _ _ _, l => needW l "compute function"
+  | .kvGet _ _, l => needWD l "store read"        -- the slow paths and Compute read the store under the write lock
+  | .kvHas _ _, l => needWD l "store read"
+  | .kvSet _ _, l => needWD l "store write"
+  | .kvDel _, l => needWD l "store write"
+  | .decode _ _ _, l => needWD l "decode"
+  | .encode _ _ _, l => needWD l "encode"
+  | .callFn _ _ _ _, l => needWD l "compute function"
   | .cached _ _, l => needRW l "cachedValue"
   | .setB _ x, l => if x.shared then needRW l "read of the cache fields" else .falls l
   | .cvAddr _, l => needW l "cache write"
